@@ -445,6 +445,12 @@ class _World:
         s = self.sched
         if op.get("repl"):
             # a replacement writer (starts from an empty zone): admitted like any other; it gives up
+            leftover = txn.get(self.name("counter"), "TXT")
+            if leftover is not None or any(True for _ in txn.iterate_names()):
+                raise Violation(
+                    "C12:not-serial",
+                    f"T{t.idx} opened a replacement transaction (writer(replacement=True)) on a zone that had content and does not start from an empty zone: it sees counter {None if leftover is None else self.read_int(leftover)}",
+                )
             s.yield_point("op")
             t.phase = "ending"
             self.open.remove(t)
